@@ -105,6 +105,12 @@ bool BaseTagHDF5::removeReference(const std::string &name_or_id) {
 
 
 void BaseTagHDF5::references(const std::vector<DataArray> &refs_new) {
+    // all new references must exist in this block before the old ones are dropped
+    for (const auto &ref : refs_new) {
+        if (!ref || !block()->hasEntity({ref.id(), ObjectType::DataArray})) {
+            throw std::runtime_error("BaseTagHDF5::references: DataArray not found in block!");
+        }
+    }
     while (referenceCount() > 0) {
         removeReference(getReference(0)->id());
     }
